@@ -39,6 +39,9 @@ def structures(tier):
     for tidf in (False, True):
         for proc in (None, 'name', 'pid', 'other'):
             sts.append({'kind': 'v3logs', 'tid': tidf, 'proc': proc})
+    # log records that name no process, on a thread an earlier record / the thread map knows: judged by their own fields
+    for proc in ('name', 'pid', 'other', '0', ''):
+        sts.append({'kind': 'v3logs', 'tid': False, 'proc': proc, 'logs': 'anonymous'})
     sts.append({'kind': 'v3events', 'nc': 1, 'ns': 1})
     sts.append({'kind': 'v2', 'm': 2, 'tid': False, 'nc': 0, 'ns': 3})
     sts.append({'kind': 'v2', 'm': 1, 'tid': False, 'nc': 1, 'ns': 3})
@@ -264,6 +267,9 @@ def run_v3(ctx, st):
     from pykdebugparser.os_log_event import OsLogEvent
     recs = [ctx.bytes('rec%d' % i, 64) for i in range(2)]
     logs = V.sample_logs()
+    if st.get('logs') == 'anonymous':
+        logs = {'Events': [V.mandatory(1, 0x501, p=0, pid=V.LOG_PID), V.mandatory(4, 0x501), V.mandatory(4, 0x77),
+                           V.mandatory(1, 0x502, pid=V.LOG_PID)]}
     data = V.v3_file(threads=[(0x77, 7, b'procA')], chunks=[[recs[0]], [recs[1]]],
                      blocks=[('strings', V.sample_strings()), ('logs', logs)])
     p = PyKdebugParser()
@@ -288,7 +294,7 @@ def run_v3(ctx, st):
         return
     # log listing
     ftid = ctx.int('ftid') if st['tid'] else None
-    proc = {None: None, 'name': V.LOG_PROCESS_NAME, 'pid': str(V.LOG_PID), 'other': 'nosuchprocess'}[st['proc']]
+    proc = {None: None, 'name': V.LOG_PROCESS_NAME, 'pid': str(V.LOG_PID), 'other': 'nosuchprocess', '0': '0', '': ''}[st['proc']]
     p.filter_tid = ftid
     p.filter_process = proc
     try:
